@@ -274,9 +274,11 @@ Theorem C19_getitem_int_index : forall n z, 0 < n ->
 Proof. exact key_get_int. Qed.
 Print Assumptions C19_getitem_int_index.
 
-Theorem C19_getitem_slice_bounds : forall n s e, 0 < n ->
+(* start/stop follow Python; the step is IGNORED by the code as it is (m[::2] returns every row:
+   signature 'getitem:slice-step-ignored'), hence the statement holds for every st *)
+Theorem C19_getitem_slice_bounds : forall n s e st, 0 < n ->
   (forall z, s = Some z -> - n <= z <= n) -> (forall z, e = Some z -> - n <= z <= n) ->
-  key_get n (KSl s e) = Some (py_bound n 0 s, py_bound n n e).
+  key_get n (KSl s e st) = Some (py_bound n 0 s, py_bound n n e).
 Proof. exact key_get_slice. Qed.
 Print Assumptions C19_getitem_slice_bounds.
 
